@@ -425,11 +425,10 @@ func (t *ComparableTree) Insert(key Comparable, value interface{}) {
 		child := parent.children[index]
 		child.lock()
 
-		if index == 0 {
-			if smallest := child.smallest(); key.Less(smallest) {
-				// preemptively update smallest value
-				parent.runts[0] = key
-			}
+		if index == 0 && key.Less(parent.runts[0]) {
+			// The key becomes the smallest of this subtree. Only ever lower the
+			// first runt; never raise it toward the smallest key of the child.
+			parent.runts[0] = key
 		}
 
 		// Split the internal node when required.
@@ -558,11 +557,10 @@ func (t *ComparableTree) Update(key Comparable, callback func(interface{}, bool)
 		child := parent.children[index]
 		child.lock()
 
-		if index == 0 {
-			if smallest := child.smallest(); key.Less(smallest) {
-				// preemptively update smallest value
-				parent.runts[0] = key
-			}
+		if index == 0 && key.Less(parent.runts[0]) {
+			// The key becomes the smallest of this subtree. Only ever lower the
+			// first runt; never raise it toward the smallest key of the child.
+			parent.runts[0] = key
 		}
 
 		// Split the internal node when required.
